@@ -100,6 +100,29 @@ def pinched_case(rng):
     return dict(line=line, lmin=lmin, lmax=lmax, swap=1, events=ev, size=size, kind=kind)
 
 
+def tie_case(rng):
+    """a lattice-built box whose edges (sides and face diagonals) have squared lengths EXACTLY equal to l_min^2 or l_max^2:
+    `longer than the maximum` / `shorter than the minimum` are strict, so the mesh conforms and a pass must not touch it"""
+    sides = rng.choice([(3.0, 4.0, 3.0), (3.0, 4.0, 4.0), (6.0, 8.0, 6.0), (5.0, 12.0, 5.0), (4.0, 3.0, 3.0)])
+    sc = 2.0 ** rng.choice([0, 0, -3, -20, 4])            # exactly representable scalings
+    n0, f = tissue.cube()
+    off = [float(rng.choice([0, 0, 7, -16])) * sc for _ in range(3)]
+    n = [[(p[k] + 1.0) / 2.0 * sides[k] * sc + off[k] for k in range(3)] for p in n0]
+    # exact squared edge lengths in lattice units (integers)
+    unit = [[round((p[k] + 1.0) / 2.0 * sides[k]) for k in range(3)] for p in n0]
+    sq = sorted(set(sum((unit[a][k] - unit[b][k]) ** 2 for k in range(3)) for t in f for a, b in ((t[0], t[1]), (t[1], t[2]), (t[2], t[0]))))
+    lo2, hi2 = sq[0], sq[-1]
+    lo_exact = math.isqrt(lo2) ** 2 == lo2; hi_exact = math.isqrt(hi2) ** 2 == hi2
+    lmin = math.isqrt(lo2) * sc if (lo_exact and rng.random() < 0.8) else math.sqrt(lo2) * sc * 0.5
+    lmax = math.isqrt(hi2) * sc if (hi_exact and rng.random() < 0.8) else math.sqrt(hi2) * sc * 1.5
+    types = [rng.randrange(3) for _ in f]
+    ev = ["MOM %s %d" % (hx(1e-15), rng.randrange(1 << 30)), "FRESH", "REFINE", "REFINE"]
+    ct = tissue.cell_type(gid=0)
+    line = tissue.fmt_tissue(tissue.params(), [ct], [(0, n, f)]) + " R %s %s %d %d %s %d %s" % (
+        hx(lmin), hx(lmax), 0, len(types), " ".join(map(str, types)), len(ev), " ".join(ev))
+    return dict(line=line, lmin=lmin, lmax=lmax, swap=0, events=ev, size=sc * max(sides), kind="lattice_box", conforming=True)
+
+
 def conforming_case(rng):
     """a mesh that already satisfies the band and the quality rule: a pass must leave it unchanged"""
     size = 10 ** rng.uniform(-6, 0)
